@@ -45,6 +45,8 @@ def run(ctx: Ctx, rep: Report) -> None:
     rep.rule("C05-R3", "community messages are SEQUENCE[version constant, community, PDU]", floor=4)
     rep.rule("C05-R4", "SNMPv3 message, header, flags, scoped PDU and USM parameters follow RFC 3412 / 3414", floor=14)
     rep.rule("C05-R5", "API arguments reach the PDU fields (decided by C07-R1, C02-R3, C04-R1)", floor=1)
+    rep.rule("C05-R6", "msgFlags state the credentials' security level and mark confirmed-class PDUs reportable (shared with C10-R1)", floor=10)
+    rep.rule("C05-R7", "the version spoken is that of the current credentials: a change of credential family installs the matching message-processing model (shared with C18-R4)", floor=4)
     rep.assumptions += [
         "x690 encodes the primitive types (INTEGER, OCTET STRING, OID, NULL), lengths and SEQUENCE framing correctly over their full ranges (numeric; not analysed here)",
     ]
@@ -197,9 +199,15 @@ def run(ctx: Ctx, rep: Report) -> None:
     rep.check(ok, "C05-R4", mb.site(), "SNMPv3Message = SEQUENCE[version, HeaderData, OctetString(security parameters), scoped PDU data]", fmt(items), key="Message|shape")
     # spdu selection: ScopedPDU -> its sequence, else the ciphertext OctetString as is
     sel_ok = False
+    mdefs = ctx.defs(mb)
+    vals = {norm(v) for v in mdefs.all_values("spdu")}
+    conv_guarded = False
     for n in own_nodes(mb.node):
         if isinstance(n, ast.If) and norm(n.test) == "isinstance(self.scoped_pdu, ScopedPDU)":
-            sel_ok = any(norm(s) == "spdu = self.scoped_pdu.as_snmp_type()" for s in n.body) and any(norm(s) == "spdu = self.scoped_pdu" for s in n.orelse)
+            conv_guarded = any(norm(x) in ("spdu = self.scoped_pdu.as_snmp_type()",) or (isinstance(x, ast.AnnAssign) and x.value is not None and norm(x.value) == "self.scoped_pdu.as_snmp_type()") for x in n.body)
+            plain_else = any(isinstance(x, (ast.Assign, ast.AnnAssign)) and x.value is not None and norm(x.value) == "self.scoped_pdu" for x in n.orelse)
+            plain_before = any(isinstance(x, (ast.Assign, ast.AnnAssign)) and x.value is not None and norm(x.value) == "self.scoped_pdu" and x.lineno < n.lineno for x in own_nodes(mb.node))
+            sel_ok = conv_guarded and (plain_else or plain_before) and vals == {"self.scoped_pdu.as_snmp_type()", "self.scoped_pdu"}
     rep.check(sel_ok, "C05-R4", mb.site(), "the fourth element is the scoped PDU's sequence, or the ciphertext OCTET STRING unchanged", key="Message|payload-selection")
     rep.check(dataclass_fields(msg) == ["version", "header", "security_parameters", "scoped_pdu"], "C05-R4", f"{msg.module.path}:{msg.node.lineno} (Message)", "Message fields are declared in wire order", f"{dataclass_fields(msg)}", key="Message|field-order")
     # flags
@@ -264,3 +272,11 @@ def run(ctx: Ctx, rep: Report) -> None:
         mms = None
     rep.check(isinstance(mms, int) and 484 <= mms <= 2147483647, "C05-R4", enc3.site(), "msgMaxSize is within RFC 3412's INTEGER (484..2147483647)", f"MESSAGE_MAX_SIZE = {mms}", key="MESSAGE_MAX_SIZE|range")
     rep.ok("C05-R5", ctx.send_method().site(), "request id, GETBULK counters and OIDs reach the PDU unchanged", "decided by C07-R1, C02-R3 and C04-R1")
+    from . import c10, c18
+
+    sub = Report(rep.prop, rep.tier)
+    c10.run(ctx, sub)
+    rep.adopt_rules(sub, "C05-R6", ["C10-R1"])
+    sub = Report(rep.prop, rep.tier)
+    c18.run(ctx, sub)
+    rep.adopt_rules(sub, "C05-R7", ["C18-R4"])
